@@ -196,8 +196,14 @@ func C11(c *sim.Ctx) {
 	case "sched":
 		class = classSched
 	}
-	g := &gen{t: t, biased: class == classSched && !t.Chance("sched_unbiased", 1, 5)}
+	g := &gen{t: t, sched: class == classSched, biased: class == classSched && !t.Chance("sched_unbiased", 1, 5)}
 	input, label := g.input()
+	// Only an input that names one of the methods whose result cannot be serialised can reach the
+	// server's handling of a failed serialisation. Those runs (and every run of a process in which an
+	// earlier run hung, see wait.go) do not rely on synctest.Wait() or on a blocking receive to learn
+	// that the server has come to rest.
+	hangProne := bytes.Contains(input, []byte(unserTag))
+	careful := hangProne || poisoned()
 
 	poolSize := []int{1, 2, 3, 8, 16}[t.Draw("pool", 5)]
 	useRW := t.Chance("read_writer", 1, 4)
@@ -246,8 +252,14 @@ func C11(c *sim.Ctx) {
 	// scheduling class knobs
 	cancelAllowed := class == classSched && t.Chance("cancel_enabled", 1, 3)
 	timeout := time.Duration(0)
-	if useRW && cancelAllowed && t.Chance("timeout_instead_of_cancel", 1, 2) {
+	if useRW && cancelAllowed && !hangProne && t.Chance("timeout_instead_of_cancel", 1, 2) {
+		// (not for hang-prone inputs: after a hang the fake clock cannot be advanced any more, and
+		// the run must still replay in the same process)
 		timeout = 5 * time.Second
+	}
+	if poisoned() && (timeout > 0 || (hangProne && hangsSeen >= maxHangsPerProcess)) {
+		c.Inconclusive++
+		return
 	}
 
 	cl := classifyInput(effective)
@@ -285,6 +297,35 @@ func C11(c *sim.Ctx) {
 
 	var res callResult
 	obs := &observed{}
+	shape := "other"
+	if len(cl.cands) > 0 && cl.structured {
+		shape = "single"
+		if cl.cands[0].mode == topBatch {
+			shape = "batch"
+		}
+	}
+	unserNoted := false
+	noteUnser := func() { // the failed serialisation is a fault that fired
+		if unserNoted || rec.unserCount() == 0 {
+			return
+		}
+		unserNoted = true
+		c.Fault("result_marshal_error")
+		if shape == "batch" {
+			c.Probe("unserialisable_result_in_batch")
+		} else {
+			c.Probe("unserialisable_result_single")
+		}
+	}
+	// hang: the server can make no further step and the call has not returned. Its goroutines cannot
+	// be joined; they are left behind (wait.go).
+	hang := func(key, format string, a ...any) {
+		cancel()
+		rec.releaseAll()
+		noteUnser()
+		poison(c)
+		c.Fail("hang", key+"("+shape+")", format, a...)
+	}
 	joined := false
 	finish := func() {
 		// join everything this run started
@@ -303,18 +344,52 @@ func C11(c *sim.Ctx) {
 		}
 	}
 
+	done := make(chan callResult, 1)
+	isDone := func() bool { return len(done) > 0 }
+	// wait: every other goroutine of the bubble is blocked (or gone). Reports how many of them are
+	// stuck acquiring a lock (careful mode only; synctest.Wait() would not return at all then).
+	wait := func(spins int) (locked int) {
+		if careful {
+			_, locked = settle(c, isDone, spins)
+			return locked
+		}
+		synctest.Wait()
+		return 0
+	}
+	// leftover: the call has returned; a goroutine of the server that is stuck on a lock for ever
+	// is a part of the server that hangs (it keeps its slot of the worker pool), and could not be joined
+	leftover := func() {
+		if !careful {
+			return
+		}
+		if _, locked := settle(c, never, 0); locked > 0 {
+			hang("worker_blocked_on_lock_after_return", "the call returned but %d goroutine(s) of the server stay blocked acquiring a lock; input %q", locked, clip(string(input), 400))
+		}
+	}
+
 	if class != classSched {
-		res = serve()
+		if !careful {
+			res = serve()
+		} else {
+			go func() { done <- serve() }()
+			if finished, locked := settle(c, isDone, 200); !finished {
+				if locked > 0 {
+					hang("blocked_on_lock", "the call does not return: %d goroutine(s) of the server are blocked acquiring a lock that nobody will release; input %q", locked, clip(string(input), 400))
+				}
+				hang("call_does_not_return", "the call does not return: every goroutine of the server is blocked; input %q", clip(string(input), 400))
+			}
+			res = <-done
+			leftover()
+		}
 		finish()
 	} else {
 		start := time.Now()
-		done := make(chan callResult, 1)
 		go func() { done <- serve() }()
 		finished := false
 		steps, reorders := 0, 0
 		maxParked := 0
 		for !finished {
-			synctest.Wait()
+			locked := wait(4)
 			select {
 			case res = <-done:
 				finished = true
@@ -323,9 +398,11 @@ func C11(c *sim.Ctx) {
 			}
 			keys, show := rec.parkedGroups()
 			if len(keys) == 0 {
-				// quiescent, nothing to release, no answer: the call hangs. Best effort clean-up.
-				cancel()
-				c.Fail("hang", "no_parked_handler", "HandleReader is blocked with no handler left to release; input %q", clip(string(input), 400))
+				// quiescent, nothing to release, no answer: the call hangs.
+				if locked > 0 {
+					hang("blocked_on_lock", "the call does not return: no handler is left to release and %d goroutine(s) of the server are blocked acquiring a lock that nobody will release; input %q", locked, clip(string(input), 400))
+				}
+				hang("no_parked_handler", "HandleReader is blocked with no handler left to release; input %q", clip(string(input), 400))
 			}
 			if len(keys) > maxParked {
 				maxParked = len(keys)
@@ -362,7 +439,7 @@ func C11(c *sim.Ctx) {
 			// step cap: let everything run out, judge nothing
 			for i := 0; i < 1000 && !finished; i++ {
 				rec.releaseAll()
-				synctest.Wait()
+				wait(4)
 				select {
 				case res = <-done:
 					finished = true
@@ -372,6 +449,7 @@ func C11(c *sim.Ctx) {
 			if !finished {
 				c.Broken("could not drain the server after the step cap")
 			}
+			leftover()
 			finish()
 			return
 		}
@@ -382,8 +460,10 @@ func C11(c *sim.Ctx) {
 			c.Probe("concurrent_handlers")
 		}
 		c.SimNs += int64(time.Since(start))
+		leftover()
 		finish()
 	}
+	noteUnser()
 
 	// faults that actually fired
 	if rd.nCut > 0 {
@@ -446,6 +526,12 @@ func C11(c *sim.Ctx) {
 
 	// transport error: only a hard reader fault may cause one, and then nothing else may have happened
 	if obs.err != nil {
+		if rec.unserCount() > 0 && len(obs.out) == 0 {
+			// (a more specific name for what the two checks below would report anyway: a handler ran,
+			// its result could not be serialised, and the caller gets an error from the transport and
+			// not a single byte of a response)
+			c.Fail(relaxUnserDropped, "single:call_returns_error_instead_of_response_object", "the call returned error %v and no output after the handler's result failed to serialise: the request has an id and gets no response object; input %q", obs.err, clip(string(input), 600))
+		}
 		if !(hardFault && rd.nFail > 0) {
 			c.Fail("transport_error", "without_fault", "the call returned error %v without an injected read error; input %q", obs.err, clip(string(input), 600))
 		}
